@@ -74,6 +74,27 @@ const BUDGETS: &[u32] = &[1, 2, 3, 5, 8, 13, 21, 34, 55, 89, 144, 233, 377, 610,
 
 pub fn generate(rng: &mut Rng, tier: Tier) -> Value {
     let l = litmus();
+    if rng.chance(3, 10) {
+        // budget sweep over synchronous programs: every opcode of the second (budgeted) dispatch
+        // table that these programs reach, with the budget running out at seeded positions
+        let (name, parts) = if rng.chance(1, 2) {
+            let h = kernels::harvest();
+            let g = &h[rng.idx(h.len())];
+            (format!("harvest:{}", g.0), g.1.clone())
+        } else {
+            let nk = rng.range(1, 2) as usize;
+            let (ks, names) = kernels::compose(rng, "sd", nk);
+            (format!("kernels:{}", names.join("+")), ks)
+        };
+        let n = if tier == Tier::Quick { 5 } else { 10 };
+        let scheds = (0..n)
+            .map(|i| Sched::Budget {
+                budget: if i == 0 { *rng.pick(BUDGETS) } else { rng.range(1, 64) as u32 },
+                gc_every_yield: *rng.pick(&[0u32, 0, 0, 7]),
+            })
+            .collect();
+        return serde_json::to_value(Scenario { name, parts, expected: None, scheds }).expect("ser");
+    }
     let (name, parts, expected) = if rng.chance(1, 2) {
         let (n, s, e) = &l[rng.idx(l.len())];
         (n.clone(), vec![s.clone()], Some(e.clone()))
@@ -305,7 +326,7 @@ pub const PROP: Prop = Prop {
     generate,
     execute,
     shrink,
-    rule: "one run = one program (one of the committed litmus programs with its expected trace, or 1..3 promise/async kernels plus optionally a synchronous one, as one evaluation or split across evaluations with the same drain points) executed synchronously on the real SimpleJobExecutor and under 4 (quick) / 8 (thorough) seeded host schedules: evaluate_async_with_budget with budgets from the Fibonacci grid 1..2^20 or uniform 1..400, polled by the simulator with collections at seeded yields, followed by run_jobs_async polled the same way; or the stub FIFO executor with seeded batch boundaries (0..6 jobs per run_jobs call, called until empty); non-trivial = at least one yield, collection or batch split happened; distinct = distinct (program, schedule list, yields, batch splits)",
+    rule: "one run = (7 of 10) one program (one of the committed litmus programs with its expected trace, or 1..3 promise/async kernels plus optionally a synchronous one, as one evaluation or split across evaluations with the same drain points) executed synchronously on the real SimpleJobExecutor and under 4 (quick) / 8 (thorough) seeded host schedules: evaluate_async_with_budget with budgets from the Fibonacci grid 1..2^20 or uniform 1..400, polled by the simulator with collections at seeded yields, followed by run_jobs_async polled the same way; or the stub FIFO executor with seeded batch boundaries (0..6 jobs per run_jobs call, called until empty); or (3 of 10) a budget sweep: a synchronous kernel composition or a harvested test group evaluated under 5 (quick) / 10 (thorough) budgets drawn from 1..64 and the Fibonacci grid, each compared with the synchronous evaluation; non-trivial = at least one yield, collection or batch split happened; distinct = distinct (program, schedule list, yields, batch splits)",
     real: &["lexer/parser/compiler/VM incl. the budgeted dispatch table", "promise machinery, async functions/generators", "SimpleJobExecutor (behind the Recording shim) in the synchronous and budgeted schedules"],
     stub: &["SimExecutor (host side of the JobExecutor seam: FIFO, scripted batch boundaries)", "Recording shim (re-boxes promise jobs to log enqueue/run)", "SimClock, SimHooks, print native"],
     assumptions: &[
